@@ -490,7 +490,21 @@ def run_verus(vf, workdir, rlimit=30, extra_args=(), timeout=900):
         msg = d.get("message", "")
         if msg.startswith("aborting due to"):
             continue
-        spans = d.get("spans", [])
+        spans = []
+        for sp in d.get("spans", []):
+            # a span inside a macro expansion (unreachable!, panic!, assert!, vec!) lies in library code:
+            # walk the expansion chain back to the call site in the unit file
+            cur = sp
+            hops = 0
+            while cur is not None and not str(cur.get("file_name", "")).endswith(vf.unit + ".rs") and hops < 12:
+                exp = cur.get("expansion")
+                cur = exp.get("span") if exp else None
+                hops += 1
+            if cur is not None:
+                cur = dict(cur, is_primary=sp.get("is_primary"), label=sp.get("label"))
+                spans.append(cur)
+            else:
+                spans.append(sp)
         prim = [s for s in spans if s.get("is_primary")] or spans
         line = (prim[0]["line_start"] - offset) if prim else 0
         is_verif = any(msg.startswith(m) or m in msg for m in VERIF_FAIL_MESSAGES)
